@@ -104,36 +104,70 @@ theorem canon_reg : Canon (.ptr Gen.T_RegistrationChargingInformation) (regVal t
   canon_fields
   exact .wrap (.enum ⟨by decide, by decide⟩)
 
+/-- an OPTIONAL member that is either absent or canonical -/
+theorem canonFields_opt {p : Params} {t : Ty} {r : Fields} {v : Val} {vs : Vals} (ho : p.optional = true)
+    (h : v = .nil ∨ Canon t v) (hr : CanonFields r vs) : CanonFields (.cons p t r) (.cons v vs) := by
+  rcases h with rfl | h
+  · exact .absent ho hr
+  · exact .present h hr
+
 theorem canon_record (e : RecEnv) (r : Record) (h : RecInt64 e r) : Canon Gen.T_CHFRecord (recordVal e r) := by
   obtain ⟨hf, hcid, hlsn, hcause, hrsn, hus, hpdu⟩ := h
-  have hU := canon_usages r.usage hus
   have hN := canon_nfi e r hf
   have h200 : int64 200 := ⟨by decide, by decide⟩
   have h1 : int64 1 := ⟨by decide, by decide⟩
   have h0 : int64 0 := ⟨by decide, by decide⟩
+  have o5 : usageListVal e.emptyList r.usage = .nil ∨ Canon (.slice Gen.T_MultipleUnitUsage) (usageListVal e.emptyList r.usage) := by
+    have hU := canon_usages r.usage hus
+    cases hu : r.usage with
+    | nil => cases e.emptyList <;> simp [usageListVal]; exact .slice .nil
+    | cons u us => rw [hu] at hU; exact Or.inr (.slice hU)
+  have o8 : rsnVal r.rsn = .nil ∨ Canon (.ptr (.int 64)) (rsnVal r.rsn) := by
+    cases hr : r.rsn with
+    | none => exact Or.inl rfl
+    | some n => exact Or.inr (.ptr (canon_nat (hrsn n hr)))
+  have o13 : pduVal e.pdu = .nil ∨ Canon (.ptr Gen.T_PDUSessionChargingInformation) (pduVal e.pdu) := by
+    cases hp : e.pdu with
+    | none => exact Or.inl rfl
+    | some d => exact Or.inr (canon_pdu d (hpdu d hp))
+  have o16 : optBytes r.sid = .nil ∨ Canon (.ptr Gen.T_ChargingSessionIdentifier) (optBytes r.sid) := by
+    cases r.sid with
+    | none => exact Or.inl rfl
+    | some b => exact Or.inr (.ptr (.wrap .octets))
+  have o17 : optBytes e.svcSpec = .nil ∨ Canon (.ptr .octets) (optBytes e.svcSpec) := by
+    cases e.svcSpec with
+    | none => exact Or.inl rfl
+    | some b => exact Or.inr (.ptr .octets)
+  have o19 : regVal e.registration = .nil ∨ Canon (.ptr Gen.T_RegistrationChargingInformation) (regVal e.registration) := by
+    cases e.registration with
+    | false => exact Or.inl rfl
+    | true => exact Or.inr canon_reg
   unfold recordVal Gen.T_CHFRecord
   refine .choice (v := chargingRecordVal e r) (by decide) (.here (.ptr ?_)) rfl rfl
   unfold chargingRecordVal Gen.T_ChargingRecord
-  cases hu : r.usage <;> cases hr : r.rsn <;> cases r.sid <;> cases e.svcSpec <;> cases hp : e.pdu <;> cases e.registration <;>
-  · simp only [Vals.ofList, nils, List.cons_append, List.nil_append, usageListVal, optBytes, pduVal_none, regVal_none]
-    refine .struct ?_
-    canon_fields
-    all_goals first
-      | exact hN
-      | exact canon_pdu _ (hpdu _ hp)
-      | exact canon_reg
-      | exact .wrap (canon_int64 h200)
-      | exact .wrap (canon_int64 h0)
-      | exact .wrap .str
-      | exact .wrap .octets
-      | exact .ptr (.wrap .octets)
-      | exact .ptr .octets
-      | exact .ptr (.struct (.present (.wrap (.enum h1)) (.present .str .nil)))
-      | exact .wrap (canon_nat hcause)
-      | exact .ptr (.wrap (canon_nat hlsn))
-      | exact .ptr (.wrap (canon_int64 hcid))
-      | exact .ptr (canon_nat (hrsn _ hr))
-      | (rw [hu] at hU; exact .slice hU)
+  simp only [Vals.ofList, nils, List.cons_append, List.nil_append]
+  generalize usageListVal e.emptyList r.usage = v5 at *
+  generalize rsnVal r.rsn = v8 at *
+  generalize pduVal e.pdu = v13 at *
+  generalize optBytes r.sid = v16 at *
+  generalize optBytes e.svcSpec = v17 at *
+  generalize regVal e.registration = v19 at *
+  refine .struct ?_
+  repeat' (first
+    | exact CanonFields.nil
+    | refine CanonFields.absent rfl ?_
+    | refine canonFields_opt rfl (by assumption) ?_
+    | refine CanonFields.present ?_ ?_)
+  all_goals first
+    | exact hN
+    | exact .wrap (canon_int64 h200)
+    | exact .wrap (canon_int64 h0)
+    | exact .wrap .str
+    | exact .wrap .octets
+    | exact .ptr (.struct (.present (.wrap (.enum h1)) (.present .str .nil)))
+    | exact .wrap (canon_nat hcause)
+    | exact .ptr (.wrap (canon_nat hlsn))
+    | exact .ptr (.wrap (canon_int64 hcid))
 
 /-! ### the domain of the encoder theorems (C04) -/
 
@@ -157,9 +191,9 @@ theorem valOK_record (e : RecEnv) (r : Record) (h : RecInt64 e r) : valOK (recor
   obtain ⟨hf, hcid, hlsn, hcause, hrsn, hus, hpdu⟩ := h
   have hU := valOK_usages r.usage hus
   unfold int64 at hf hcid hlsn hcause
-  have h5 : valOK (usageListVal r.usage) = true := by
+  have h5 : valOK (usageListVal e.emptyList r.usage) = true := by
     cases hu : r.usage with
-    | nil => simp [usageListVal, valOK]
+    | nil => cases e.emptyList <;> simp [usageListVal, valOK, valsOK]
     | cons u us => rw [hu] at hU; simp [usageListVal, valOK, hU]
   have h16 : valOK (optBytes r.sid) = true := by cases r.sid <;> simp [optBytes, valOK]
   have h17 : valOK (optBytes e.svcSpec) = true := by cases e.svcSpec <;> simp [optBytes, valOK]
@@ -177,11 +211,11 @@ theorem valOK_record (e : RecEnv) (r : Record) (h : RecInt64 e r) : valOK (recor
   have h19 : valOK (regVal e.registration) = true := by
     cases e.registration <;> simp [regVal, valOK, valsOK, Vals.ofList, nils]
   cases hr : r.rsn with
-  | none => simp [recordVal, chargingRecordVal, valOK, valsOK, Vals.ofList, nils, hcid, hlsn, hcause, h5, h16, h3, h13, h17, h19, hr]
+  | none => simp [recordVal, chargingRecordVal, rsnVal, valOK, valsOK, Vals.ofList, nils, hcid, hlsn, hcause, h5, h16, h3, h13, h17, h19, hr]
   | some n =>
     have h8 := hrsn n hr
     unfold int64 at h8
-    simp [recordVal, chargingRecordVal, valOK, valsOK, Vals.ofList, nils, hcid, hlsn, hcause, h5, h16, h3, h13, h17, h19, hr, h8]
+    simp [recordVal, chargingRecordVal, rsnVal, valOK, valsOK, Vals.ofList, nils, hcid, hlsn, hcause, h5, h16, h3, h13, h17, h19, hr, h8]
 
 theorem bitsOK_containers (cs : List Container) : bitsOKs (containerVals cs) = true := by
   induction cs with
@@ -194,9 +228,9 @@ theorem bitsOK_usages (us : List RecUsage) : bitsOKs (usageVals us) = true := by
   | cons u r ih => simp [usageVals, usageVal, bitsOKs, bitsOK, Vals.ofList, ih, bitsOK_containers]
 
 theorem bitsOK_record (e : RecEnv) (r : Record) : bitsOK (recordVal e r) = true := by
-  have h5 : bitsOK (usageListVal r.usage) = true := by
+  have h5 : bitsOK (usageListVal e.emptyList r.usage) = true := by
     cases hu : r.usage with
-    | nil => simp [usageListVal, bitsOK]
+    | nil => cases e.emptyList <;> simp [usageListVal, bitsOK, bitsOKs]
     | cons u us => simp [usageListVal, bitsOK, bitsOK_usages]
   have h16 : bitsOK (optBytes r.sid) = true := by cases r.sid <;> simp [optBytes, bitsOK]
   have h17 : bitsOK (optBytes e.svcSpec) = true := by cases e.svcSpec <;> simp [optBytes, bitsOK]
@@ -208,7 +242,7 @@ theorem bitsOK_record (e : RecEnv) (r : Record) : bitsOK (recordVal e r) = true 
     cases e.pdu <;> simp [pduVal, bitsOK, bitsOKs, Vals.ofList, nils]
   have h19 : bitsOK (regVal e.registration) = true := by
     cases e.registration <;> simp [regVal, bitsOK, bitsOKs, Vals.ofList, nils]
-  cases hr : r.rsn <;> simp [recordVal, chargingRecordVal, bitsOK, bitsOKs, Vals.ofList, nils, h5, h16, h3, h13, h17, h19, hr]
+  cases hr : r.rsn <;> simp [recordVal, chargingRecordVal, rsnVal, bitsOK, bitsOKs, Vals.ofList, nils, h5, h16, h3, h13, h17, h19, hr]
 
 end Chf.RecordBer
 
@@ -321,9 +355,13 @@ theorem recordEnc_ok (e : RecEnv) (r : Record) (h : RecOctets e r) : Bytes.ok (r
   unfold recordEnc tlv
   refine ok_append (header_ok_200 _) ?_
   unfold recordContent
-  have hl : Bytes.ok (usageListEnc r.usage) := by
+  have hl : Bytes.ok (usageListEnc e.emptyList r.usage) := by
     cases hu : r.usage with
-    | nil => exact ok_nil
+    | nil =>
+      simp only [usageListEnc]
+      split
+      · exact tlv_ok_low 2 true 5 _ (by decide) (by decide) ok_nil
+      · exact ok_nil
     | cons u us => rw [hu] at h6; exact tlv_ok_low 2 true 5 _ (by decide) (by decide) (usagesEnc_ok _ h6)
   have hrsn : Bytes.ok (match r.rsn with | some n => intF 8 n | none => []) := by
     cases r.rsn with
